@@ -1,6 +1,7 @@
 package main
 
 import (
+	"go/constant"
 	"os"
 	"fmt"
 	"golang.org/x/tools/go/ssa/ssautil"
@@ -1052,8 +1053,40 @@ func (x *Exec) builtin(st *State, f *Frame, b *ssa.Builtin, c *ssa.CallCommon, a
 		return nil
 	case "copy":
 		// copy(dst, src) on byte slices cannot mutate an immutable string model
-		if _, ok := args[0].(Sc); ok {
-			bail("copy into []byte")
+		if d, ok := args[0].(Sc); ok {
+			// []byte values are immutable strings: copy can only be modelled when the destination is a byte
+			// slice this function made itself and has not sliced or shared since — then the register is rebound
+			// to the new contents (src's prefix followed by the rest of dst)
+			var mk ssa.Value
+			switch a := c.Args[0].(type) {
+			case *ssa.MakeSlice:
+				if onlyPlainUses(a.Referrers()) {
+					mk = a
+				}
+			case *ssa.Slice:
+				// make([]byte, <constant>) is a whole-array slice of a fresh local array
+				if al, ok := a.X.(*ssa.Alloc); ok && a.Low == nil && wholeArray(a, al) && onlyPlainUses(a.Referrers()) {
+					only := true
+					for _, r := range *al.Referrers() {
+						if _, isDbg := r.(*ssa.DebugRef); r != ssa.Instruction(a) && !isDbg {
+							only = false
+						}
+					}
+					if only {
+						mk = a
+					}
+				}
+			}
+			src, okS := args[1].(Sc)
+			if mk == nil || !okS || src.T.Sort != SStr {
+				bail("copy into []byte")
+			}
+			ld, ls := App(SInt, "str.len", d.T), App(SInt, "str.len", src.T)
+			n := Ite(Cmp("<", ls, ld), ls, ld)
+			nv := strConcat(App(SStr, "str.substr", src.T, IntLit(0), n), App(SStr, "str.substr", d.T, n, Sub(ld, n)))
+			f.vals[mk] = Sc{nv}
+			x.noteLib("copy into a byte slice made by this function: the register is rebound to the new contents")
+			return Sc{n}
 		}
 		dst := args[0].(SliceV)
 		for _, l := range leavesOf(dst.Elem) {
@@ -1384,4 +1417,34 @@ func sortedKeys(m map[string]bool) []string {
 	}
 	sort.Strings(out)
 	return out
+}
+
+// onlyPlainUses: the made slice is only passed to calls (copy, functions) and debug references — never
+// re-sliced, indexed or stored, so no alias of it can observe the rebinding.
+func onlyPlainUses(refs *[]ssa.Instruction) bool {
+	if refs == nil {
+		return false
+	}
+	for _, r := range *refs {
+		switch r.(type) {
+		case ssa.CallInstruction, *ssa.DebugRef:
+		default:
+			return false
+		}
+	}
+	return true
+}
+
+// wholeArray: s is x[:] or x[:len(x)] of the local array al.
+func wholeArray(s *ssa.Slice, al *ssa.Alloc) bool {
+	if s.High == nil {
+		return true
+	}
+	at, ok := al.Type().Underlying().(*types.Pointer).Elem().Underlying().(*types.Array)
+	c, ok2 := s.High.(*ssa.Const)
+	if !ok || !ok2 || c.Value == nil {
+		return false
+	}
+	n, exact := constant.Int64Val(c.Value)
+	return exact && n == at.Len()
 }
